@@ -488,6 +488,17 @@ NOWRAPCHECK void __ubsan_handle_negate_overflow_minimal() { g_ub = g_ub + 1; }
 #else
 extern "C" void __ubsan_on_report(void) { g_ub = g_ub + 1; }
 #endif
+// watchdog: a request that does not finish within its budget reports the input it was working on and exits
+#include <csignal>
+#include <unistd.h>
+static volatile unsigned long long g_cur = 0;
+static const char* volatile g_what = "-";
+static void on_alarm(int) {
+    char buf[160];
+    int k = snprintf(buf, sizeof buf, "TIMEOUT what=%s current=%llu\n", g_what, (unsigned long long)g_cur);
+    if (write(1, buf, k) < 0) {}
+    _exit(3);
+}
 static const char* prn(d::PrimeResult r) {
     return r == d::PrimeResult::COMPOSITE ? "COMPOSITE" : r == d::PrimeResult::PROBABLY_PRIME ? "PROBABLY_PRIME" : "BAD_INPUT";
 }
@@ -509,12 +520,18 @@ static bool trial_prime(uint64_t f, const std::vector<uint32_t>& sp) {
 }
 int main() {
     static char line[4096];
+    signal(SIGALRM, on_alarm);
+    const char* budget = getenv("C12_LINE_BUDGET");
+    unsigned budget_s = budget ? (unsigned)atoi(budget) : 300u;
     while (fgets(line, sizeof line, stdin)) {
+        alarm(budget_s);
+        g_what = "-"; g_cur = 0;
         char cmd[16] = {0}; char op[16] = {0}; ull a = 0, b = 0, c = 0, e = 0;
         if (sscanf(line, "%15s", cmd) != 1) { puts("bad"); continue; }
         if (!strcmp(cmd, "P")) {
             if (sscanf(line, "%*s %llu", &a) != 1) { puts("bad"); continue; }
             uint64_t n = a;
+            g_what = "P"; g_cur = n;
             long u0 = g_ub; bool sq = d::is_perfect_square(n); long wsq = g_ub - u0;
             u0 = g_ub; d::PrimeResult mr = d::miller_rabin(2u, n); long wmr = g_ub - u0;
             const char* lucas = "skipped"; long wl = 0;
@@ -569,7 +586,9 @@ int main() {
             }
             ull n = 0, bad = 0, first = 0, primes = 0, fn = 0, fbad = 0, ffirst = 0, fgot = 0, rho = 0;
             long u0 = g_ub;
+            g_what = "SWEEP";
             for (uint64_t x = lo; x < hi; ++x) {
+                g_cur = x;
                 bool truth = x >= 2 && !comp[x - lo];
                 bool got = d::is_prime(x);
                 ++n; primes += truth;
@@ -589,7 +608,9 @@ int main() {
             if (sscanf(line, "%*s %llu %llu", &a, &b) != 2) { puts("bad"); continue; }
             Rng g{a};
             ull n_eval = 0, bad = 0, slow = 0, big = 0; long wraps = 0; char first[200] = "-";
+            g_what = "RAND";
             for (ull i = 0; i < b; ++i) {
+                g_cur = i;
                 uint64_t n; uint64_t k = g.below(10);
                 if (k == 0) n = 2 + g.below(254);
                 else if (k == 1) n = UINT64_MAX - g.below(64);
@@ -717,8 +738,15 @@ def check_stderr(errs, cfg, wrapcount, phase, violations):
                            "rec": {"kind": "ub", "config": cfg, "phase": phase, "reports": bad[:10]}})
 
 
-def run_sharded(exe, lines, shards=16, heavy=lambda l: False):
-    """Answers in request order; stderr of all shards."""
+class HarnessFailure(Exception):
+    def __init__(self, info):
+        Exception.__init__(self, info.get("what", "harness failure"))
+        self.info = info
+
+
+def run_sharded(exe, lines, shards=16, heavy=lambda l: False, budget=300):
+    """Answers in request order; stderr of all shards.  A shard whose process hits the per-request watchdog
+    (`TIMEOUT what=.. current=..`) or dies raises HarnessFailure naming the request it was working on."""
     if not lines:
         return [], []
     order = sorted(range(len(lines)), key=lambda i: 0 if heavy(lines[i]) else 1)
@@ -728,19 +756,37 @@ def run_sharded(exe, lines, shards=16, heavy=lambda l: False):
 
     def work(idx):
         if not idx:
-            return [], ""
-        rc, out, err = run([exe], inp="\n".join(lines[i] for i in idx) + "\n", env=UBSAN_ENV, timeout=7200)
+            return [], "", None
+        env = dict(UBSAN_ENV)
+        env["C12_LINE_BUDGET"] = str(budget)
+        try:
+            rc, out, err = run([exe], inp="\n".join(lines[i] for i in idx) + "\n", env=env, timeout=budget * len(idx) + 600)
+        except Exception as ex:       # subprocess.TimeoutExpired
+            return [], "", {"what": f"harness process did not finish: {ex}", "request": lines[idx[0]]}
         res = [l for l in out.split("\n") if l]
-        if len(res) != len(idx):
-            raise RuntimeError(f"harness: rc={rc}, {len(res)} answers for {len(idx)} requests; stderr tail:\n{err[-3000:]}")
-        return res, err
+        fail = None
+        if res and res[-1].startswith("TIMEOUT"):
+            r = kv(res[-1])
+            fail = {"what": f"request `{lines[idx[len(res) - 1]]}` did not finish within {budget} s (working on {r.get('what')} "
+                            f"input {r.get('current')})", "request": lines[idx[len(res) - 1]], "current": r.get("current"),
+                    "phase": r.get("what")}
+            res = res[:-1]
+        elif len(res) != len(idx):
+            fail = {"what": f"harness exited with rc={rc} after {len(res)} of {len(idx)} requests", "request": lines[idx[min(len(res), len(idx) - 1)]],
+                    "stderr": err[-3000:]}
+        return res, err, fail
     outs = pmap(work, buckets, workers=shards)
     answers = [None] * len(lines)
     errs = []
-    for idx, (res, err) in zip(buckets, outs):
+    fails = []
+    for idx, (res, err, fail) in zip(buckets, outs):
         errs.append(err)
+        if fail:
+            fails.append(fail)
         for i, r in zip(idx, res):
             answers[i] = r
+    if fails:
+        raise HarnessFailure(dict(fails[0], n_failures=len(fails), exe=os.path.basename(exe)))
     return answers, errs
 
 
@@ -926,10 +972,23 @@ int main() { return sizeof(au::Prime<%dull>) > 100; }
 # main
 # ----------------------------------------------------------------------------------------------
 
+def harness_failure_violation(ex, cfg, phase, violations):
+    """A harness shard hit the watchdog or died: non-termination / crash of the implementation on an input."""
+    info = ex.info
+    cur = info.get("current")
+    concrete = info.get("phase") in ("SWEEP", "P") and cur is not None
+    rec = {"kind": "P", "n": int(cur), "config": cfg, "observable": "termination", "request": info.get("request")} if concrete else \
+          {"kind": "hang", "config": cfg, "phase": phase, "info": {k: str(v)[:1500] for k, v in info.items()}}
+    violations.append({"what": f"implementation did not answer during {phase} under {cfg}: {info.get('what')}",
+                       "class": "oracle-termination", "no_input": not concrete,
+                       "broken": "harness request did not finish / harness died", "rec": rec})
+
+
 def explore(tier, seed, rng, wd, violations):
     t0 = time.time()
     stats = {k: 0 for k in ("P_prime", "P_composite", "P_rho", "P_spsp2", "P_slpsp", "A_valid", "is_perfect_square_wrong")}
     samples = []
+    budget = 90 if tier == "quick" else 600      # seconds per harness request before the watchdog fires
     std2 = ["c++14", "c++17", "c++20"][seed % 3]
     configs = [("clang++-14", std2, "c" + std2[-2:]), ("g++", "c++14", "g14")]
     if tier == "thorough":
@@ -964,7 +1023,11 @@ def explore(tier, seed, rng, wd, violations):
     sweep_total = {"n": 0, "primes": 0, "fn": 0, "nontrivial_factor": 0}
     for ci, (exe, cfg, wc) in enumerate(exes):
         lines = sweep_lines if ci == 0 else rng.sample(sweep_lines, max(4, len(sweep_lines) // 16))
-        ans, errs = run_sharded(exe, lines, heavy=lambda l: True)
+        try:
+            ans, errs = run_sharded(exe, lines, heavy=lambda l: True, budget=budget)
+        except HarnessFailure as ex:
+            harness_failure_violation(ex, cfg, "sweep", violations)
+            continue
         check_stderr(errs, cfg, wc, "sweep", violations)
         for l, a in zip(lines, ans):
             r = kv(a)
@@ -995,7 +1058,11 @@ def explore(tier, seed, rng, wd, violations):
     rand_lines = [f"RAND {rng.randrange(1, 1 << 62)} {per}" for _ in range(16)]
     rand_total = {"n": 0, "slow_path": 0, "big_modulus": 0}
     for (exe, cfg, wrapdet) in exes:
-        ans, errs = run_sharded(exe, rand_lines, heavy=lambda l: True)
+        try:
+            ans, errs = run_sharded(exe, rand_lines, heavy=lambda l: True, budget=budget)
+        except HarnessFailure as ex:
+            harness_failure_violation(ex, cfg, "bulk modular helpers", violations)
+            continue
         check_stderr(errs, cfg, wrapdet, "bulk modular helpers", violations)
         for l, a in zip(rand_lines, ans):
             r = kv(a)
@@ -1092,7 +1159,11 @@ def explore(tier, seed, rng, wd, violations):
     distinct = set()
     for (exe, cfg, wrapdet) in exes:
         lines = p_lines + [a_lines[i] for i in keepA] + m_lines
-        ans, errs = run_sharded(exe, lines, heavy=lambda l: l[0] == "P")
+        try:
+            ans, errs = run_sharded(exe, lines, heavy=lambda l: l[0] == "P", budget=budget)
+        except HarnessFailure as ex:
+            harness_failure_violation(ex, cfg, "single requests", violations)
+            continue
         check_stderr(errs, cfg, wrapdet, "single requests", violations)
         with open(os.path.join(wd, "stderr_" + os.path.basename(exe) + ".txt"), "w") as ef:
             ef.write("\n".join(errs)[-2000000:])
@@ -1256,7 +1327,12 @@ def replay(path):
         viol, stats = [], {k: 0 for k in ("P_prime", "P_composite", "P_rho", "P_spsp2", "P_slpsp", "A_valid", "is_perfect_square_wrong")}
         if kind == "P":
             n = int(r["n"])
-            a, _ = run_sharded(exe, [f"P {n}"], shards=1)
+            try:
+                a, _ = run_sharded(exe, [f"P {n}"], shards=1, budget=60)
+            except HarnessFailure as ex:
+                print("impl  :", ex.info.get("what"))
+                print(f"VIOLATION property={PROP} replay={path}")
+                return 1
             m = ask_model([f"c12 P {n}"], shards=1)
             print("impl  :", a[0]); print("model :", m[0]); print("oracle: prime =", is_prime_det(n), "factorisation =", factorize(n) if n > 1 else None)
             judge_P(n, r.get("class", "replay"), a[0], m[0], " ".join(cfg), wc, viol, stats)
